@@ -22,8 +22,8 @@ happens at the top of the next iteration, before the read that reports the end).
 namespace Hertz.H1.RespSeq
 open Hertz Hertz.Gen.Str Hertz.HW Hertz.H1.Resp
 
-/-- the `Connection` field of the request as `RequestHeader.parseHeaders` treats it: the bytes `close`
-(`bytes.Equal`, so `Close` is `other`), a value with the element `keep-alive` (`ext.HasHeaderValue`,
+/-- the `Connection` field of the request as `RequestHeader.parseHeaders` treats it: the option `close`
+in any letter case (`utils.CaseInsensitiveCompare` since 9dcdbe5; before it `Close` was `other`), a value with the element `keep-alive` (`ext.HasHeaderValue`,
 case-insensitive), any other value, or no field -/
 inductive ReqConn where
   | absent | close | keepAlive | other
